@@ -1,8 +1,8 @@
 """C11  Caller-owned data is never modified; cached callback results are safe."""
-from . import xform
+from . import loop, xform
 
-OWNED = ["C11.", "C04.cons", "C04.cons_jac", "C04.lag_hess", "C04.obj_grad", "C04.obj"]
-REQUIRED = ["C11.caller_owned_unchanged", "C11.cached_callback_results_unchanged", "C11.argument_arrays_unchanged", "C11.start_point_unchanged", "C04.cons_jac", "C04.lag_hess"]
+OWNED = ["C11.", "C12.result_is_last_accepted", "C01.gate.", "C04.cons", "C04.cons_jac", "C04.lag_hess", "C04.obj_grad", "C04.obj"]
+REQUIRED = ["C11.solve_leaves_the_start_point_unchanged", "C11.solve_leaves_cached_callback_results_unchanged", "C11.solve_leaves_bound_arrays_unchanged", "C11.caller_owned_unchanged", "C11.cached_callback_results_unchanged", "C11.argument_arrays_unchanged", "C11.start_point_unchanged", "C04.cons_jac", "C04.lag_hess"]
 META = dict(
     functions_encoded=xform.FUNCTIONS,
     stubs=["user Problem callbacks := uninterpreted functions; return policy in {cached constant J/H object, memoised per point (same object for the same point)}; formats COO/CSR/CSC with scipy's measured share/copy table"],
@@ -11,13 +11,17 @@ META = dict(
         quick="n=1, m=1; row kinds eq0/eqb/ge/ranged; policies cached, memo; formats COO/CSR/CSC; W in {0,1}; three evaluation rounds (x, x', x again) + transform/restore + start iterate",
         thorough="n<=2, m<=2; all row kinds; W=2",
     ),
-    outside=["callbacks that reuse one output buffer for different points (not among the stated policies)", "a whole solve (the iteration machinery only reads evaluator results: covered by the aliasing obligations of the step-solver harness)"],
+    outside=["callbacks that reuse one output buffer for different points (not among the stated policies)", "the step solvers' use of the cached matrices inside a whole solve (L1 stubs the step computation; the step solvers copy.copy / tocsc their inputs: read, not proved)"],
     explanation="Value snapshots (z3 terms) of every caller-owned array and of every object a caching callback handed out are compared after each entry point; the values the pipeline returns on a cache hit must still equal the reference transformation (twin fresh/cached equality).",
 )
 
 
 def tasks(tier):
     t = []
+    # a whole solve (L1) over caching callbacks: cached constant J/H, memoised per point
+    K = 1 if tier == "quick" else 2
+    t += loop.loop_tasks([dict(policy="DualNorm", cons=["eq0"], policy_cb=pc, fmt=f) for pc, f in (("cached", "coo"), ("memo", "csr"), ("memo", "coo"))], K)
+    t += loop.loop_tasks([dict(policy="DualNorm", cons=["ge"], policy_cb="memo", fmt="csc")], K)
     if tier == "quick":
         for pol in ("cached", "memo"):
             for k, (fmt, c, W) in enumerate([("coo", ["eq0"], 1), ("csr", ["ge"], 1), ("csc", ["eqb"], 1), ("coo", ["eqb"], 0), ("csr", ["ranged"], 0), ("coo", ["ge"], 0)]):
